@@ -7,6 +7,8 @@ CONSTANTS
   MaxLen = 2
   WithBad = TRUE
   WithDup = FALSE
+  WithSplit = FALSE
+  C0peer = "a0"
   MaxLevel = 4
 INVARIANTS TypeOK PropertyHolds
 CHECK_DEADLOCK FALSE
